@@ -667,6 +667,32 @@ func (e *enc) trCall(n *ECall, env *Env) Val {
 			e.useBox(so)
 			return Val{T: "(" + unboxFn(so) + " (i-val " + v.T + "))", S: so}
 		}
+	case "raw", "rawlo", "rawhi":
+		// raw(s, x): the element of slice s's backing array at the absolute index x (rawlo(s) <= x < rawhi(s) are s's own
+		// elements). Quantifying over x instead of s[j] gives the pattern (select arr x), which matches the element terms of
+		// an in-place append / copy whatever offset they were computed from (shifts inside one backing array).
+		v := e.tr(n.Args[0], env)
+		if v.S != "Slice" {
+			e.trFail("%s() of a non-slice", n.Fn)
+		}
+		switch n.Fn {
+		case "rawlo":
+			return Val{T: "(s-off " + v.T + ")", S: "Int"}
+		case "rawhi":
+			return Val{T: "(+ (s-off " + v.T + ") (s-len " + v.T + "))", S: "Int"}
+		}
+		var et types.Type
+		if v.GT != nil {
+			if sl, ok := v.GT.Underlying().(*types.Slice); ok {
+				et = sl.Elem()
+			}
+		}
+		if et == nil {
+			e.trFail("raw() of slice with unknown element type: %s", n.Args[0])
+		}
+		es := e.te.SortOf(et)
+		x := e.tr(n.Args[1], env)
+		return Val{T: sel(e.getIn(env.cur, e.memName(es)), "(s-ptr "+v.T+")", x.T), S: es, GT: et}
 	case "box":
 		// box("reflect.Value", x): the interface value the compiler builds when x of the named Go type is passed as interface{}
 		if s, ok := n.Args[0].(*EStr); ok {
